@@ -1,6 +1,6 @@
 #!/bin/bash
 # run every registered check's quick command once; print id, exit code, seconds, last line
-cd /verif
+cd "$(dirname "$0")/.."
 for id in $(/venv/bin/python -c "import json; print(' '.join(c['property_id'] for c in json.load(open('MANIFEST.json'))['checks']))"); do
   S=$(date +%s); out=$(./run.py $id ${1:-quick} 2>&1); rc=$?
   echo "$id exit=$rc $(( $(date +%s) - S ))s | $(echo "$out" | tail -1 | cut -c1-160)"
